@@ -16,6 +16,7 @@ import ast
 from ..engine import Ctx
 from ..report import Report
 from ..rules import small
+from ..rules import valnum
 from ..rules.linear import linform
 from ..source import AnalysisError
 from ..source import FunctionInfo
@@ -562,10 +563,27 @@ def seqord(ctx: Ctx, rep: Report) -> None:
     rep.seen(f.qualname)
     ins = [c for st in f.body for c in ast.walk(st)
            if isinstance(c, ast.Call) and _self_call(c) == 'insert_circuit']
+    # the popped operation, whatever the local is called, and temporaries
+    popped = {
+        s.targets[0].id for s in ast.walk(f.node)
+        if isinstance(s, ast.Assign) and len(s.targets) == 1
+        and isinstance(s.targets[0], ast.Name)
+        and isinstance(s.value, ast.Call) and _self_call(s.value) == 'pop'
+    }
+    single = {}
+    for s in ast.walk(f.node):
+        if isinstance(s, ast.Assign) and len(s.targets) == 1 and isinstance(
+                s.targets[0], ast.Name):
+            single.setdefault(s.targets[0].id, []).append(s.value)
+
+    def res(e):
+        if isinstance(e, ast.Name) and len(single.get(e.id, [])) == 1:
+            return norm(single[e.id][0])
+        return norm(e)
     ok = bool(ins) and len(ins[0].args) >= 3 and (
-        norm(ins[0].args[0]) == 'point[0]'
+        norm(ins[0].args[0]) in ('point[0]', 'point.cycle')
         and norm(ins[0].args[1]) == 'circuit'
-        and norm(ins[0].args[2]) == 'op.location'
+        and res(ins[0].args[2]) in {f'{p}.location' for p in popped}
     )
     rep.count()
     rep.check(
@@ -591,7 +609,8 @@ def seqord(ctx: Ctx, rep: Report) -> None:
     # appended
     ic = lambda n: any(
         (_self_call(c) == 'insert_circuit' and len(c.args) >= 4
-         and norm(c.args[0]) == 'region.min_cycle'
+         and (norm(c.args[0]) == 'region.min_cycle' or norm(
+             valnum.subst(ctx, f, n, c.args[0])).endswith('.min_cycle'))
          and norm(c.args[3]) == 'True')
         or (_self_call(c) == 'append_circuit' and len(c.args) >= 3
             and norm(c.args[0]) == 'circuit'
